@@ -15,7 +15,7 @@ VERIF = os.path.dirname(os.path.dirname(os.path.dirname(os.path.abspath(__file__
 SPEC_DIR = os.path.join(VERIF, "spec")
 CACHE = os.path.join(VERIF, ".cache")
 if os.environ.get("VF_REPO"):      # scratch run against another checkout: its own scratch area, so it can run beside a normal run
-    CACHE = os.path.join(CACHE, "alt", os.path.basename(os.environ["VF_REPO"].rstrip("/")), "cache")
+    CACHE = os.path.join(CACHE, "alt", os.environ["VF_REPO"].strip("/").replace("/", "_"), "cache")
     os.makedirs(CACHE, exist_ok=True)
 JAR = "/opt/veriftools/tla/tla2tools.jar"
 DEPS = "/opt/veriftools/tla/CommunityModules-deps.jar"
